@@ -6,6 +6,8 @@ use serde_json::Value;
 use std::path::Path;
 
 pub mod c08;
+pub mod c14;
+pub mod c15;
 pub mod c16;
 pub mod c19;
 
@@ -14,13 +16,26 @@ pub struct PropDef {
     pub level: &'static str,
     pub run: fn(&Env, &Report),
     pub replay: fn(&str, Value) -> Option<CaseResult>,
+    /// replay through a child process (for checks whose known findings include hangs)
+    pub replay_isolated: Option<fn(&str, &str, Value) -> Option<CaseResult>>,
+}
+
+impl PropDef {
+    fn do_replay(&self, sub: &str, case: Value) -> Option<CaseResult> {
+        match self.replay_isolated {
+            Some(f) => f(self.id, sub, case),
+            None => (self.replay)(sub, case),
+        }
+    }
 }
 
 pub fn registry() -> Vec<PropDef> {
     vec![
-        PropDef { id: "C08", level: "exploration", run: c08::run, replay: c08::replay },
-        PropDef { id: "C16", level: "exploration", run: c16::run, replay: c16::replay },
-        PropDef { id: "C19", level: "exploration", run: c19::run, replay: c19::replay },
+        PropDef { id: "C08", level: "exploration", run: c08::run, replay: c08::replay, replay_isolated: None },
+        PropDef { id: "C14", level: "exploration", run: c14::run, replay: c14::replay, replay_isolated: None },
+        PropDef { id: "C15", level: "exploration", run: c15::run, replay: c15::replay, replay_isolated: Some(c15::replay_isolated) },
+        PropDef { id: "C16", level: "exploration", run: c16::run, replay: c16::replay, replay_isolated: None },
+        PropDef { id: "C19", level: "exploration", run: c19::run, replay: c19::replay, replay_isolated: None },
     ]
 }
 
@@ -58,7 +73,7 @@ fn replay_corpus(env: &Env, def: &PropDef, rep: &Report) -> bool {
         if name.starts_with("fail-") && std::env::var("SV_REPLAY_FAILS").is_err() {
             continue;
         }
-        match (def.replay)(&sub, case.clone()) {
+        match def.do_replay(&sub, case.clone()) {
             None => {
                 eprintln!("[sv] replay {}: unknown sub-check {}", name, sub);
             }
@@ -98,6 +113,13 @@ pub fn run(env: &Env) -> i32 {
     rep.finish()
 }
 
+pub fn child(env: &Env, sub: &str) -> i32 {
+    match find(&env.prop) {
+        Some(def) => crate::core::child_loop(sub, def.replay),
+        None => 64,
+    }
+}
+
 pub fn replay_file(env: &Env, path: &Path) -> i32 {
     let def = match find(&env.prop) {
         Some(d) => d,
@@ -111,7 +133,7 @@ pub fn replay_file(env: &Env, path: &Path) -> i32 {
     let sub = v.get("sub").and_then(|s| s.as_str()).unwrap_or("").to_string();
     let case = v.get("case").cloned().unwrap_or(Value::Null);
     let known = crate::core::load_known_findings(env);
-    match (def.replay)(&sub, case) {
+    match def.do_replay(&sub, case) {
         None => {
             eprintln!("unknown sub-check {}", sub);
             64
